@@ -189,7 +189,7 @@ Section LogChain.
   Lemma commit_walk_chain lcr b0 : forall fuel parent acc s,
     Inv s -> vetted s parent ->
     linked (acc ++ [b0]) -> hd b0 (acc ++ [b0]) = parent -> (forall x, In x acc -> lcr < b_round x) ->
-    match commit_walk fuel lcr parent acc s with
+    match commit_walk src_dq fuel lcr parent acc s with
     | (s', _, ROk acc') =>
         s' = s /\ linked (acc' ++ [b0]) /\ (forall x, In x acc' -> lcr < b_round x) /\
         stop_ok s lcr (hd b0 (acc' ++ [b0]))
@@ -198,7 +198,7 @@ Section LogChain.
   Proof.
     induction fuel as [|f IH]; intros parent acc s H Hv Hl Hh Hr; simpl.
     - exact I.
-    - gunf. destruct (lcr + 1 <? b_round parent) eqn:E1.
+    - gunfdq. destruct (lcr + 1 <? b_round parent) eqn:E1.
       2:{ unfold ret. split; [reflexivity|]. split; [exact Hl|]. split; [exact Hr|].
           left. rewrite Hh. apply N.ltb_ge in E1. exact E1. }
       unfold bind at 1.
@@ -222,7 +222,7 @@ Section LogChain.
       assert (Hr' : forall x, In x (anc :: acc) -> lcr < b_round x).
       { intros x [<-|Hx]; [apply N.leb_gt in E2; exact E2|apply Hr; exact Hx]. }
       assert (IH' := IH anc (anc :: acc) s H Hva Hl' eq_refl Hr').
-      destruct (commit_walk f lcr anc (anc :: acc) s) as [[s2 o2] r2]. exact IH'.
+      destruct (commit_walk _ f lcr anc (anc :: acc) s) as [[s2 o2] r2]. exact IH'.
   Qed.
 
   (* ---------- where the walk stops is exactly the previously delivered block ---------- *)
@@ -316,9 +316,9 @@ Section LogChain.
       rewrite A. rewrite <- app_assoc. auto.
   Qed.
 
-  Lemma keeps_commit_walk lcr : forall fuel parent acc, keeps (commit_walk fuel lcr parent acc).
+  Lemma keeps_commit_walk lcr : forall fuel parent acc, keeps (commit_walk src_dq fuel lcr parent acc).
   Proof.
-    induction fuel as [|f IH]; intros parent acc; simpl; [apply keeps_panic|]. gunf.
+    induction fuel as [|f IH]; intros parent acc; simpl; [apply keeps_panic|]. gunfdq.
     destruct (_ <? _); [|apply keeps_ret].
     apply keeps_bind; [apply keeps_get_parent_block|]. intros [anc|]; [|apply keeps_panic].
     destruct (_ <=? _); [apply keeps_ret|apply IH].
@@ -338,11 +338,11 @@ Section LogChain.
   Lemma commit_log b0 s :
     Inv s -> W s -> LogInv s -> vetted s b0 ->
     (s_last_committed s < b_round b0 -> dcommit (cw s) (block_digest b0)) ->
-    LogInv (st (commit true b0 s)).
+    LogInv (st (commit src_dq b0 s)).
   Proof.
     intros H Hw HL Hv Hd.
     pose proof (commit_inv c me honest members_nodup me_honest w0 byz_bound b0 s H Hv Hd) as CI.
-    unfold commit in *. gunf. unfold bind at 1 in CI. unfold bind at 1. unfold get at 1 in CI. unfold get at 1.
+    unfold commit in *. gunfdq. unfold bind at 1 in CI. unfold bind at 1. unfold get at 1 in CI. unfold get at 1.
     destruct (b_round b0 <=? s_last_committed s) eqn:El.
     { unfold ret, st. simpl. exact HL. }
     apply N.leb_gt in El. specialize (Hd El).
@@ -352,7 +352,7 @@ Section LogChain.
     pose proof (keeps_commit_walk (s_last_committed s) (S (S (ddepth (block_digest b0)))) b0 [] s) as KW.
     pose proof (commit_walk_inv c me honest members_nodup me_honest w0 byz_bound (s_last_committed s)
                   (S (S (ddepth (block_digest b0)))) b0 [] s H Hv) as WI.
-    destruct (commit_walk _ _ b0 [] s) as [[s1 o1] r1]. unfold st in KW. simpl in KW.
+    destruct (commit_walk _ _ _ b0 [] s) as [[s1 o1] r1]. unfold st in KW. simpl in KW.
     destruct WI as [I1 [[He1 _] _]].
     destruct r1 as [anc|e|k].
     2:{ unfold st. simpl. eapply LogInv_keep; eauto. }
@@ -394,7 +394,7 @@ Section LogChain.
 
   Lemma process_block_log hint b s :
     Inv s -> W s -> LogInv s -> vetted s b ->
-    LogInv (st (process_block c me true hint b s)).
+    LogInv (st (process_block c me src_dq hint b s)).
   Proof.
     intros H Hw HL Hv. unfold process_block. gunf. unfold bind at 1.
     pose proof ($get_parent_block_inv b s H Hv) as G. pose proof (keeps_get_parent_block b s) as K.
@@ -456,7 +456,7 @@ Section LogChain.
         - lia. }
       pose proof ($commit_inv b0 s5 I5 Hv05 Hd) as Kc.
       pose proof (commit_log b0 s5 I5 Hw5 HL5 Hv05 Hd) as KL.
-      destruct (commit true b0 s5) as [[s6 o6] r6]. unfold st in KL; simpl in KL.
+      destruct (commit src_dq b0 s5) as [[s6 o6] r6]. unfold st in KL; simpl in KL.
       destruct Kc as [I6 [L6 _]].
       split; [exact I6|]. split; [exact (sle_tr _ _ _ L5 L6)|exact KL]. }
     unfold bind at 1.
@@ -484,7 +484,7 @@ Section LogChain.
 
   Lemma handle_proposal_log hint b s :
     Inv s -> W s -> LogInv s -> block_sound c me honest w0 s b ->
-    LogInv (st (handle_proposal c me true hint b s)).
+    LogInv (st (handle_proposal c me src_dq hint b s)).
   Proof.
     intros H Hw HL [Hq Ht]. unfold handle_proposal. unfold bind at 1.
     destruct (b_author b =? leader c (b_round b)); [|exact HL].
@@ -527,12 +527,12 @@ Section LogChain.
     assert (Hv3 : vetted s3 b) by (eapply ($vetted_sle); eauto).
     assert (Hw3 : W s3) by (eapply W_sle; eauto).
     pose proof (process_block_log hint b s3 I3 Hw3 HL3 Hv3) as B.
-    destruct (process_block c me true hint b s3) as [[s4 o4] r4]. exact B.
+    destruct (process_block c me src_dq hint b s3) as [[s4 o4] r4]. exact B.
   Qed.
 
   Theorem step_log hint e s :
     Inv s -> W s -> LogInv s -> ev_adm c me honest w0 s e ->
-    LogInv (st (step c me true hint e s)).
+    LogInv (st (step c me src_dq hint e s)).
   Proof.
     intros H Hw HL Ha.
     pose proof ($step_inv hint e s H Ha) as SI.
@@ -558,7 +558,7 @@ Section LogChain.
       assert (HL1 : LogInv s1) by (eapply LogInv_step; eauto; split; reflexivity).
       assert (Hw1 : W s1) by (eapply W_sle; eauto).
       pose proof (process_block_log hint x s1 I1 Hw1 HL1 (($vetted_sle) _ _ _ Hvx L1)) as B.
-      destruct (process_block c me true hint x s1) as [[s2 o2] r2]. exact B.
+      destruct (process_block c me src_dq hint x s1) as [[s2 o2] r2]. exact B.
     - pose proof (keeps_local_timeout c me hint s) as K.
       destruct (local_timeout c me hint s) as [[s1 o1] r1]. unfold st in *; simpl in *. destruct SI as [_ L]. eapply LogInv_step; eauto.
     - clear SI. pose proof ($batch_stored_inv d s H) as B. pose proof (keeps_batch_stored d s) as K.
